@@ -193,7 +193,15 @@ class Env:
         '''Oracle (2).'''
         if (self.error is None and self.started and self.last_m == self.last_b == self.D
                 and self.last_m_epoch == self.epoch and self.owed):
-            if set(self.owed) <= self.pending_bp_tokens() and self.last_call == 'on_block':
+            stale_key = any(h > self.n._highest_block for h in self.n._touched_mp)
+            if stale_key and set(self.owed) <= self.pending_tokens():
+                self.error = (f'both sources have reported at the current height {self.D} but '
+                              f'token(s) {sorted(self.owed)} are still pending (not dropped): a '
+                              f'refresh armed at a greater height before the chain got shorter '
+                              f'was handed over after the lower block report; its set and every '
+                              f'refresh behind it wait for the next block report',
+                              'stale_refresh_above_lower_report')
+            elif set(self.owed) <= self.pending_bp_tokens() and self.last_call == 'on_block':
                 self.error = (f'both sources have reported at the current height {self.D} but '
                               f'token(s) {sorted(self.owed)} are still pending (not dropped): '
                               f'they wait for the next mempool refresh because a fresh refresh '
@@ -223,9 +231,8 @@ class Env:
             # the daemon's best chain loses its top k blocks (invalidateblock, or a switch to a
             # branch with more work and fewer blocks): the index is now k blocks ahead on a stale
             # tip and cannot notice until the daemon is higher again or the operator forces a reorg
-            # (explored only with no refresh in flight: see DESIGN.md section 11, "not explored")
             if self.downs < MAX_DOWNS and self.D == self.S == self.d and self.bp == 'idle' \
-                    and self.mp is None and self.started:
+                    and self.started:
                 for k in (1, 2):
                     if self.D - k >= HMIN:
                         out.append(('down', k))
